@@ -724,4 +724,18 @@ theorem C08_code_select_ties (l : List Atsim.Gen.Logic.PRange) (hwf : ∀ p ∈ 
   rw [C08_code_range_search _ hswf r, C08_code_setter l hwf]
   exact C08_select_ties (l.map CodeTie.toRD) hd r
 
+/-! ### value, `deriv` and `deriv2` are taken from the SAME selected range (`__call__`, `Multi_Range_Potential_Form_Deriv.deriv`, `..._Deriv2.deriv2` regenerated) -/
+
+open Atsim.Gen.Logic in
+/-- **code tie**: at every r the three methods consult `_range_search` and use ITS range: the selected range's own potential form, its own `deriv`, its own
+    `deriv2`; below the first range the value is the default and both derivatives are 0 -/
+theorem C08_code_same_range (evalForm rangeDeriv rangeDeriv2 : PRange → Int → Rat) (defs : List PRange) (dflt : Rat) (r : Int) :
+    mr_call evalForm defs dflt r = (match range_search defs r with | some t => evalForm t r | none => dflt) ∧
+    mr_deriv rangeDeriv defs r = (match range_search defs r with | some t => rangeDeriv t r | none => 0) ∧
+    mr_deriv2 rangeDeriv2 defs r = (match range_search defs r with | some t => rangeDeriv2 t r | none => 0) := by
+  refine ⟨?_, ?_, ?_⟩
+  · simp only [mr_call]; cases range_search defs r <;> rfl
+  · simp only [mr_deriv]; cases range_search defs r <;> simp
+  · simp only [mr_deriv2]; cases range_search defs r <;> simp
+
 end Atsim.C08
